@@ -330,6 +330,11 @@ func parent(id, tier string) int {
 	// verdict
 	os.MkdirAll(filepath.Join(vd, "replays"), 0o755)
 	os.MkdirAll(filepath.Join(vd, "evidence"), 0o755)
+	if old, _ := filepath.Glob(filepath.Join(vd, "replays", id+"-seed*")); len(old) > 0 {
+		for _, f := range old {
+			os.Remove(f) // replay files of earlier runs of this property
+		}
+	}
 	exit := 0
 	violations := total.ViolationCount + len(fatal)
 	printed := 0
